@@ -56,7 +56,7 @@ FEB_LEAP_MONTH = 29
 DAYS_IN_WEEK = 7
 
 
-class _FakeParent(bs4.Tag):
+class _FakeParent:
     """
     Fake parent class.
 
@@ -132,7 +132,7 @@ class _DocumentNav:
     def create_fake_parent(el: bs4.Tag) -> bs4.Tag:
         """Create fake parent for a given element."""
 
-        return _FakeParent(el)
+        return _FakeParent(el)  # type: ignore[return-value]
 
     @staticmethod
     def is_xml_tree(el: bs4.Tag | None) -> bool:
